@@ -53,6 +53,32 @@ pub fn tabs_everywhere(_args: &[String]) -> String {
             }
         }
     }
+    // builder texts (with_message / with_prefix) use the bar's tab width at that moment, in either order with with_tab_width
+    for w in [0usize, 2, 5] {
+        for order in 0..3 {
+            let term = InMemoryTerm::new(6, 80);
+            let pb = ProgressBar::with_draw_target(Some(10), ProgressDrawTarget::term_like(Box::new(term.clone())));
+            let (pb, h) = match order {
+                0 => (pb.with_tab_width(w).with_message("m\tn").with_prefix("p\t"), format!("with_tab_width({}).with_message(m\\tn).with_prefix(p\\t)", w)),
+                1 => (pb.with_message("m\tn").with_prefix("p\t").with_tab_width(w), format!("with_message(m\\tn).with_prefix(p\\t).with_tab_width({})", w)),
+                _ => { pb.set_tab_width(w); (pb.with_prefix("p\t").with_message("m\tn"), format!("set_tab_width({}); with_prefix(p\\t).with_message(m\\tn)", w)) }
+            };
+            let hist = vec![h, "set_style(template {prefix}|{msg}|); tick".to_string()];
+            tried += 1;
+            let (wm, wp) = (format!("m{}n", sp(w)), format!("p{}", sp(w)));
+            if pb.message() != wm || pb.prefix() != wp {
+                return fail("C16 message() / prefix() return the text expanded to the bar's current tab width (builder texts)", &hist, &format!("message {:?} prefix {:?}", wm, wp), &format!("message {:?} prefix {:?}", pb.message(), pb.prefix()));
+            }
+            pb.set_style(ProgressStyle::with_template("{prefix}|{msg}|").unwrap());
+            pb.tick();
+            tried += 1;
+            let want = format!("{}|{}|", wp, wm);
+            let got = term.contents();
+            if got.contains('\t') || got.trim_end() != want.trim_end() {
+                return fail("C16 every tab is expanded to the bar's current tab width (builder texts)", &hist, &want, &got);
+            }
+        }
+    }
     // width fields around tab-containing texts follow the CURRENT expansion: pad / truncate after every tab-width change
     for widths in [[8usize, 2, 8], [2, 8, 3], [0, 4, 0], [5, 5, 1]] {
         let term = InMemoryTerm::new(6, 80);
